@@ -34,7 +34,9 @@ type c11Gen struct {
 func (g *c11Gen) pick(ss ...string) string { return ss[g.r.Intn(len(ss))] }
 
 func (g *c11Gen) factArg() string {
-	return g.pick("1", "2", "3", "a", "b", "1", "2", "g(A,A)", "g(_,_)", "g(B,B)", "f(_)", "f(a)", "g(a,_)", "g(X,Y)", "[1,2]", "[]", "p-1", "p-2", "q-1")
+	return g.pick("1", "2", "3", "a", "b", "1", "2", "g(A,A)", "g(_,_)", "g(B,B)", "f(_)", "f(a)", "g(a,_)", "g(X,Y)", "[1,2]", "[]", "p-1", "p-2", "q-1",
+		// open lists whose tail occurs again elsewhere in the fact: copies must keep the sharing
+		"[a,b|A]", "[1,2,3|B]", "A", "[x,y|X]-X")
 }
 
 func (g *c11Gen) facts() string {
@@ -153,10 +155,21 @@ func (g *c11Gen) instances() string {
 func (g *c11Gen) query() (string, bool) {
 	pred := g.pick("findall", "bagof", "setof", "bagof", "setof")
 	goal := g.goal(2)
+	pre := ""
 	if pred != "findall" {
-		goal = g.quantified(goal)
+		if g.r.Intn(5) == 0 {
+			// part of the ^-chain reaches bagof/setof through a variable bound at run time:
+			// GQ = V1^(Goal), bagof(T, V2^GQ, L)
+			pre = "GQ = " + g.v() + "^(" + goal + "), "
+			goal = g.v() + "^GQ"
+			if g.r.Intn(2) == 0 {
+				goal = g.v() + "^" + goal
+			}
+		} else {
+			goal = g.quantified(goal)
+		}
 	}
-	q := fmt.Sprintf("%s(%s, %s, %s)", pred, g.template(), goal, g.instances())
+	q := fmt.Sprintf("%s%s(%s, %s, %s)", pre, pred, g.template(), goal, g.instances())
 	unordered := pred != "findall" || strings.Contains(q, "bagof") || strings.Contains(q, "setof")
 	switch g.r.Intn(6) {
 	case 0:
